@@ -87,17 +87,12 @@ End PP2.
 
 (* ---------------------------------------------------------------- the PARAFAC2 loop skeleton *)
 Section P2S.
-Variables (St E : Type) (err : St -> E) (Or : p2oracle St) (ls normalize recompute : bool).
+Variables (St E : Type) (err : St -> E) (Or : p2oracle St) (ls normalize : bool).
 Hypothesis Hnorm : forall st, err (p2_norm Or st) = err st.
-(* the situations in which every iteration does compute the error of the iterate it leaves behind *)
-Hypothesis Hcase : ls = false \/ recompute = true \/ (forall it, p2_accept Or it = true).
-
-Lemma set_last_ok (l : list E) e : exists es, set_last E l e = es ++ [e].
-Proof. now exists (removelast l). Qed.
 
 Lemma p2_loop_ok : forall n it cur errs,
   (n = 0 -> p2_last_ok err (cur, errs)) ->
-  p2_last_ok err (p2_loop err Or ls normalize recompute n it cur errs).
+  p2_last_ok err (p2_loop err Or ls normalize false n it cur errs).
 Proof.
   induction n as [|n IH]; intros it cur errs H0; [now apply H0|]. cbn [p2_loop].
   set (line := ls && Nat.even it && (5 <? it)).
@@ -108,47 +103,52 @@ Proof.
   set (errs2 := if line then errs1 else errs1 ++ [err st']).
   assert (Hst' : err st' = err st) by (unfold st'; destruct normalize; [apply Hnorm | reflexivity]).
   assert (Hok : p2_last_ok err (st', errs2)).
-  { unfold p2_last_ok. cbn [fst snd]. rewrite Hst'. unfold errs2, errs1. destruct line eqn:Hl.
-    - destruct (p2_accept Or it) eqn:Ha; [apply set_last_ok|].
-      destruct recompute eqn:Hr; [apply set_last_ok|].
-      exfalso. destruct Hcase as [H | [H | H]]; try discriminate.
-      + unfold line in Hl. rewrite H in Hl. discriminate.
-      + rewrite H in Ha. discriminate.
-    - rewrite <- Hst'. now exists errs. }
+  { unfold p2_last_ok. cbn [fst snd]. unfold errs2, errs1. destruct line.
+    - rewrite Hst'. now exists errs.
+    - now exists errs. }
   destruct (p2_stop Or it); [exact Hok|]. apply IH. intros _. exact Hok.
 Qed.
 
-Theorem p2_skeleton_partial n init : 0 < n ->
-  p2_last_ok err (p2_loop err Or ls normalize recompute n 0 init []).
+(* for every oracle (updates, jumps, accept / reject decisions, normalisation that keeps the error, stops), with or
+   without line search and normalisation, after at least one iteration the last reported value is the error of the
+   returned iterate *)
+Theorem p2_skeleton_sound n init : 0 < n ->
+  p2_last_ok err (p2_loop err Or ls normalize false n 0 init []).
 Proof. intros Hn. apply p2_loop_ok. intros ->. inversion Hn. Qed.
+
+(* and exactly one value per executed iteration is recorded (no stop: n values) *)
+Lemma p2_loop_length : (forall it, p2_stop Or it = false) -> forall n it cur errs,
+  length (snd (p2_loop err Or ls normalize false n it cur errs)) = length errs + n.
+Proof.
+  intros Hs. induction n as [|n IH]; intros it cur errs; cbn [p2_loop]; [cbn; lia|].
+  rewrite Hs. rewrite IH. destruct (ls && Nat.even it && (5 <? it)); rewrite app_length; cbn; lia.
+Qed.
 End P2S.
 
-(* the code as it is (no recomputation after a rejected jump) reports, after 7 iterations, the error of the
-   iterate of iteration 6 although it returns the iterate of iteration 7 *)
+(* the behaviour before fix 0080ddd (legacy = true) reports, after 7 iterations, the error of the iterate of iteration 6
+   although it returns the iterate of iteration 7 *)
 Definition toy_p2 : p2oracle nat := mkP2 (fun _ st => S st) (fun _ _ st => st + 100) (fun _ => false) (fun st => st) (fun _ => false).
-Theorem p2_skeleton_refuted :
+Theorem p2_skeleton_legacy_refuted :
   exists (Or : p2oracle nat) (n : nat) (init : nat),
     (forall st, p2_norm Or st = st) /\ (0 < n) /\
-    ~ p2_last_ok (fun st : nat => st) (p2_loop (fun st => st) Or true false false n 0 init []).
+    ~ p2_last_ok (fun st : nat => st) (p2_loop (fun st => st) Or true false true n 0 init []).
 Proof.
   exists toy_p2, 7, 0. split; [reflexivity|]. split; [lia|].
   vm_compute. intros [es H]. apply (f_equal (@rev nat)) in H. rewrite rev_unit in H. simpl in H. discriminate.
 Qed.
-(* the same run with the recomputation switched on, and with an accepting line search, is fine *)
 Example p2_skeleton_nonvacuous :
-  snd (p2_loop (fun st : nat => st) toy_p2 true false true 7 0 0 []) = [1; 2; 3; 4; 5; 7] /\
-    fst (p2_loop (fun st : nat => st) toy_p2 true false true 7 0 0 []) = 7 /\
-    snd (p2_loop (fun st : nat => st) toy_p2 true false false 7 0 0 []) = [1; 2; 3; 4; 5; 6].
-Proof. vm_compute. repeat split. Qed.
+  p2_loop (fun st : nat => st) toy_p2 true false false 7 0 0 [] = (7, [1; 2; 3; 4; 5; 6; 7]) /\
+  p2_loop (fun st : nat => st) toy_p2 true false true 7 0 0 [] = (7, [1; 2; 3; 4; 5; 6]).
+Proof. vm_compute. split; reflexivity. Qed.
 
 (* ---------------------------------------------------------------- HOOI under a mask *)
-(* partial_tucker imputes the tensor at the START of an iteration (with the previous reconstruction) but keeps the
-   norm of the ORIGINAL tensor: the reported value is neither the residual w.r.t. the imputed tensor the core was
+(* Before fix 587bdbd partial_tucker imputed the tensor at the START of an iteration (with the previous reconstruction) but
+   kept the norm of the ORIGINAL tensor: the reported value was neither the residual w.r.t. the imputed tensor the core was
    computed from, nor the residual w.r.t. the original tensor.  Witness over Z, identity factors. *)
 Definition hm_us : list (nat -> nat -> Z) := matsT Zops [mk [2;2] [1;0;0;1]%Z; mk [2;2] [1;0;0;1]%Z].
 Definition hm_X : list nat -> Z := tfun Zops (mk [2;2] [1;2;3;4]%Z).
 Definition hm_X' : list nat -> Z := tfun Zops (mk [2;2] [1;2;3;1]%Z).    (* last entry unobserved, imputed with 1 *)
-Theorem hooi_masked_stale_norm_refuted :
+Theorem hooi_masked_legacy_formula_refuted :
   exists (s rs : list nat) (X X' G : list nat -> Z) (us : list (nat -> nat -> Z)),
     orthonormal Zops s rs us /\ (forall j, inb rs j -> G j = project Zops s X' us j) /\
     hooi_err2 Zops s rs X G <> dist2 Zops s X' (tucker_entry Zops rs G us) /\
@@ -164,9 +164,31 @@ Qed.
 (* witness: X = [3; 1; 1; 4], L = 0, the last entry unobserved, one non-zero allowed.  error_calc imputes the tensor to [3; 1; 1; 0]
    and takes the sparse component [3; 0; 0; 0] of that residual (squared error 2); the sparse component handed to the
    callback comes from the raw residual [3; 1; 1; 4], i.e. [0; 0; 0; 4], whose squared error on the imputed tensor is 27 *)
-Theorem cb0_mask_sparse_refuted :
+Theorem cb0_mask_sparse_legacy_refuted :
   exists (X L m : tensor Z) (card : nat),
-    fst (cb0_reported Zops X L m card) <> fst (cb0_error_of_handed Zops X L m card).
+    fst (cb0_reported Zops X L m card) <> fst (cb0_error_of_handed Zops true X L m card).
 Proof.
   exists (mk [4] [3;1;1;4]%Z), (mk [4] [0;0;0;0]%Z), (mk [4] [1;1;1;0]%Z), 1. vm_compute. discriminate.
 Qed.
+
+(* since fix 835cf01 the pair handed to the pre-loop callback is the one the error was computed for *)
+Lemma cb0_consistent {F} (Op : fops F) X L m card : cb0_reported Op X L m card = cb0_error_of_handed Op false X L m card.
+Proof. reflexivity. Qed.
+
+(* ---------------------------------------------------------------- the explicit residual under a 0/1 mask *)
+(* error_calc / partial_tucker under a mask: || X' - L ||^2 with X' = X*m + L*(1-m) is the squared residual on the observed
+   entries only (the imputed entries contribute nothing), for every 0/1-valued mask *)
+Section PMask.
+Context {F : Type} (Op : fops F).
+Hypothesis Rth : ring_theory (f0 Op) (f1 Op) (fadd Op) (fmul Op) (fsub Op) (fopp Op) (@eq F).
+Add Ring Fr5 : Rth.
+Theorem masked_residual_is_observed_residual (X m : tensor F) (L : list nat -> F) :
+  (forall idx, inb (shape X) idx -> fmul Op (tfun Op m idx) (tfun Op m idx) = tfun Op m idx) ->
+  fst (err_explicit Op X L None (Some m)) =
+  Fsum_idx Op (shape X) (fun idx => fmul Op (tfun Op m idx) (sq Op (fsub Op (tfun Op X idx) (L idx)))).
+Proof.
+  intros Hm. unfold err_explicit. cbn [fst]. apply SI_ext; intros idx Hin. unfold imputed, sparse_fun, sq.
+  specialize (Hm idx Hin). set (a := tfun Op m idx) in *. set (x := tfun Op X idx). set (l := L idx).
+  transitivity (fmul Op (fmul Op a a) (fmul Op (fsub Op x l) (fsub Op x l))); [ring | rewrite Hm; reflexivity].
+Qed.
+End PMask.
